@@ -228,9 +228,12 @@ def run(ctx):
         for b, bb in enumerate(na.bbs):
             for st in bb["s"]:
                 if st["k"] == "a" and st["r"]["k"] == "bin" and st["r"]["op"].startswith("Add"):
-                    pl = vf.producers(na, st["r"]["l"]) | vf.origins(na, st["r"]["l"])
-                    if vf.has_call(pl, "core::iter::traits::iterator::Iterator::max_by") or vf.has_field(pl, "grin_keychain::types::ExtKeychainPath", "path"):
-                        adds.append((b, vf.const_of_operand(na, st["r"]["r"])))
+                    for var, con in ((st["r"]["l"], st["r"]["r"]), (st["r"]["r"], st["r"]["l"])):  # x + k  or  k + x
+                        pl = vf.producers(na, var) | vf.origins(na, var)
+                        kv = vf.const_of_operand(na, con)
+                        if kv is not None and (vf.has_call(pl, "core::iter::traits::iterator::Iterator::max_by") or vf.has_field(pl, "grin_keychain::types::ExtKeychainPath", "path")):
+                            adds.append((b, kv))
+                            break
         held = len(mx) == 1 and len(adds) == 1 and adds[0][1] == "1"
         run.instance(R5, {"fn": "keys::new_acct_path", "obligation": "new first path component = highest existing + 1", "additions": adds}, held=held)
         if not held:
